@@ -11,7 +11,8 @@ UNIVERSES = {"std": ("BaseStd", "FPStd", "DPStd", "std"),
              "empty": ("BaseEmpty", "FPStd", "DPStd", "empty"),
              "two": ("BaseTwo", "FPStd", "DPStd", "two"),
              "conf": ("BaseStd", "FPConf", "DPConf", "std"),
-             "out": ("BaseOut", "FPOut", "DPOut", "out")}
+             "out": ("BaseOut", "FPOut", "DPOut", "out"),
+             "case": ("BaseStd", "FPCase", "DPCase", "std")}
 
 
 def generate(ctx, name, sides, maxops, gaps, universe="std", filt="all", simulate=None):
